@@ -34,26 +34,29 @@ ENTRY = {'coq_dir': 'C04',
          'current_frame_size, unread wire, unused script events, wake-up flag. (B) two cases in fifty run end to end over a real in-memory yamux '
          'connection with the TCP or the WebSocket substream type on both ends (VerifYamuxPair hook): SinkExt::feed / flush / send_framed / close on '
          'one side, a concurrent reader on the other, messages up to 2 MB (several 256 KiB flow-control windows), fixed sizes up to 300000; the '
-         "per-call results, the frames delivered and the clean end of stream are compared with the model's prediction. Non-trivial = trace of >= 12 "
-         'numbers; distinct = distinct (case, trace) pairs. The corpus witnesses of the six repaired defects (F-C04a..f) and the close-without-flush '
-         'observation cases are replayed first on every run. Scripted failures carry every io::ErrorKind of the table extracted by '
-         'tools/gen_c04_tables.py (corpus/C04/errkinds.case: each of the 20 kinds in a Sink flush, in send_framed under both codecs and on the '
-         'reading side). (C) kind 30, 7 cases in fifty: the tokio-util codecs of src/codec called one method at a time — Identity::new(n) (n in 0 '
-         '[panics, documented],1,2,5,10,48,300,1024,4000), UnsignedVarint::new(None / Some m), with_max_size(m): Encoder::encode and the static '
-         'encode of fitting, too long, too short and empty messages (result and appended bytes), then the wire (plus raw bytes: over-long, '
-         'non-minimal, oversized, truncated prefixes) fed in chunks of 1-3, 1-40, boundary sizes or all at once with `decode` called until '
-         'None/error after every chunk (every result, frame and buffer length), decode_eof, the static decode. kind 31, 2 in fifty: '
-         'tokio_util::codec::Framed<Substream, codec> over the scripted carrier (send / close / next with stalls), outcome. (D) kind 40, 8 in fifty: '
-         'the real Substream of the TCP or WebSocket type over a REAL yamux Connection polled by hand, the remote end played by the harness in raw '
-         'yamux frames: the case fixes the starting window (0,1,2,5,100,1000,16383-16385,40000,256 KiB, more), every window update (size, moment), '
-         'when the connection task runs and an optional RST; operations as in (A); after every operation result, Sink state and the payload the peer '
-         "holds, at the end the length of every data frame and all payload bytes: equal to the model's Yamux.v (credit, 16 KiB split, 11-slot "
-         'command channel) frame for frame. kind 41, 4 in fifty: the reading side, the harness sends data frames of chosen sizes, FIN or RST; every '
-         "poll_next with state. (E) stream `extra` (tools/c04_extra_streams.sh, crate harness_c04x built with litep2p's quic+webrtc features; 250 "
-         'cases quick, 4000 thorough): kind 50/51 the real webrtc::Substream under substream::Substream, the harness playing the connection side '
-         'through SubstreamHandle (poll k times, FIN_ACK, STOP_SENDING, RESET_STREAM, payload messages of chosen sizes up to over-long ones, bursts '
-         'of 50-300 messages around the 256-slot inbound channel), per call; kinds 60-62 the scenario of (B) over the QUIC substream type between '
-         'two litep2p nodes on the loopback interface (12 codec configurations, messages up to 2 MB).',
+         "per-call results, the frames delivered and the clean end of stream are compared with the model's prediction; runs that close without a "
+         "flush (40% of those with fed messages left) are included: how many of the frames that were only fed arrive is the environment's share, "
+         'recorded by the harness in the case (z1 z2) and judged by the oracle (every message covered by a completed flush / send_framed, then a '
+         'prefix that the backpressure flushes of poll_ready can and must have written). Non-trivial = trace of >= 12 numbers; distinct = distinct '
+         '(case, trace) pairs. The corpus witnesses of the six repaired defects (F-C04a..f) and the close-without-flush observation cases are '
+         'replayed first on every run. Scripted failures carry every io::ErrorKind of the table extracted by tools/gen_c04_tables.py '
+         '(corpus/C04/errkinds.case: each of the 20 kinds in a Sink flush, in send_framed under both codecs and on the reading side). (C) kind 30, 7 '
+         'cases in fifty: the tokio-util codecs of src/codec called one method at a time — Identity::new(n) (n in 0 [panics, '
+         'documented],1,2,5,10,48,300,1024,4000), UnsignedVarint::new(None / Some m), with_max_size(m): Encoder::encode and the static encode of '
+         'fitting, too long, too short and empty messages (result and appended bytes), then the wire (plus raw bytes: over-long, non-minimal, '
+         'oversized, truncated prefixes) fed in chunks of 1-3, 1-40, boundary sizes or all at once with `decode` called until None/error after every '
+         'chunk (every result, frame and buffer length), decode_eof, the static decode. kind 31, 2 in fifty: tokio_util::codec::Framed<Substream, '
+         'codec> over the scripted carrier (send / close / next with stalls), outcome. (D) kind 40, 8 in fifty: the real Substream of the TCP or '
+         'WebSocket type over a REAL yamux Connection polled by hand, the remote end played by the harness in raw yamux frames: the case fixes the '
+         'starting window (0,1,2,5,100,1000,16383-16385,40000,256 KiB, more), every window update (size, moment), when the connection task runs and '
+         'an optional RST; operations as in (A); after every operation result, Sink state and the payload the peer holds, at the end the length of '
+         "every data frame and all payload bytes: equal to the model's Yamux.v (credit, 16 KiB split, 11-slot command channel) frame for frame. kind "
+         '41, 4 in fifty: the reading side, the harness sends data frames of chosen sizes, FIN or RST; every poll_next with state. (E) stream '
+         "`extra` (tools/c04_extra_streams.sh, crate harness_c04x built with litep2p's quic+webrtc features; 250 cases quick, 4000 thorough): kind "
+         '50/51 the real webrtc::Substream under substream::Substream, the harness playing the connection side through SubstreamHandle (poll k '
+         'times, FIN_ACK, STOP_SENDING, RESET_STREAM, payload messages of chosen sizes up to over-long ones, bursts of 50-300 messages around the '
+         '256-slot inbound channel), per call; kinds 60-62 the scenario of (B) over the QUIC substream type between two litep2p nodes on the '
+         'loopback interface (12 codec configurations, messages up to 2 MB).',
  'trusted_base': ['the scripted carrier of harness/src/c04.rs stands for a transport substream in kinds < 10, 30, 31; next to it the real carriers '
                   'are driven: tcp::Substream / websocket::Substream over a real yamux connection (kinds 10-22, 40, 41), webrtc::Substream (50, 51), '
                   'quic::Substream (60-62)',
@@ -74,14 +77,16 @@ ENTRY = {'coq_dir': 'C04',
                'zero-length accepts (C04_mixed_paths_in_order); poll_flush reports Ready(Ok) only with nothing queued; send_framed hands over the '
                'queued bytes and then exactly its frame when it returns Ok; close = carrier shutdown only (C04_close_sends_nothing, '
                'C04_close_after_flush_complete); errors reported by the call that met them; Pending only after a Pending carrier call; sender '
-               'refusal; backpressure bound; end-to-end round trip. NEW: (1) the tokio-util codecs Identity / UnsignedVarint: round trip under every '
-               'fragmentation of the Framed loop, refusal at the encoder, oversized / malformed length => error at the decoder with a bounded '
-               'pending length, same wire format and limits as the Substream framing, interoperation in both directions (C04_codec_*, '
-               'C04_substream_to_codec, C04_codec_to_substream). (2) Carriers: the writer re-stated over an abstract carrier state machine with the '
-               'log of its answers; every history over every carrier is a history of the script-driven writer on that log '
-               '(C04_carrier_refines_script), hence in-order conservation and complete flush / send_framed over every carrier (C04_carrier_in_order, '
-               'C04_carrier_complete, C04_carrier_poll_total) — a short count from poll_write never shortens a message. (3) yamux: '
-               'Stream::poll_write as accept min(offered, window, 16 KiB), Pending at zero credit or full command channel '
+               'refusal; backpressure bound and the exact behaviour of poll_ready (no carrier call below the boundary, one poll_flush at or above '
+               'it, a stalled backpressure flush is not taken up again: C04_poll_ready_flushes_to_boundary); end of stream inside a frame is end of '
+               'stream and the cut frame is not delivered (C04_eof_inside_frame_is_end_of_stream); end-to-end round trip. NEW: (1) the tokio-util '
+               'codecs Identity / UnsignedVarint: round trip under every fragmentation of the Framed loop, refusal at the encoder, oversized / '
+               'malformed length => error at the decoder with a bounded pending length, same wire format and limits as the Substream framing, '
+               'interoperation in both directions (C04_codec_*, C04_substream_to_codec, C04_codec_to_substream). (2) Carriers: the writer re-stated '
+               'over an abstract carrier state machine with the log of its answers; every history over every carrier is a history of the '
+               'script-driven writer on that log (C04_carrier_refines_script), hence in-order conservation and complete flush / send_framed over '
+               'every carrier (C04_carrier_in_order, C04_carrier_complete, C04_carrier_poll_total) — a short count from poll_write never shortens a '
+               'message. (3) yamux: Stream::poll_write as accept min(offered, window, 16 KiB), Pending at zero credit or full command channel '
                '(C04_yamux_write_discipline); bytes accepted never exceed the credit given (C04_yamux_credit_respected); no failure and no WriteZero '
                'on a stream that is not reset, a stalled writer waits for credit or the connection task only (C04_yamux_stalls_only_for_credit); the '
                'reader over the receive buffer is poll_next on a script; and for BOTH ends with any schedule of operations, window updates, '
@@ -133,14 +138,18 @@ ENTRY = {'coq_dir': 'C04',
                  'C04_sender_refuses, C04_codec_encode_refuses',
                  'every kind: messages of max+1 / wrong size / empty; result code and unchanged state / output buffer'],
                 ['an oversized or malformed incoming length yields an error at the receiver, never a panic',
-                 'C04_receiver_total, C04_receiver_rejects, C04_codec_decode_rejects',
+                 'C04_receiver_total, C04_receiver_rejects, C04_codec_decode_rejects, C04_eof_inside_frame_is_end_of_stream (a stream that ends '
+                 'inside a frame: end of stream, the cut frame is not delivered)',
                  'kinds < 10, 30, 41, 51 with raw wires: truncated, non-minimal, 10/11-byte and oversized prefixes, polled on after the error; '
                  'panics are caught and fail the oracle'],
                 ['when a send or flush is reported complete the whole message has been handed to the transport',
                  'C04_flush_complete, C04_hist_flush_complete, C04_send_framed_complete, C04_carrier_complete, C04_write_error_reported, '
-                 'C04_send_framed_error_reported',
+                 'C04_send_framed_error_reported, C04_poll_ready_flushes_to_boundary (poll_ready is not a flush: a fed message is covered only by a '
+                 'later flush / send_framed that reports completion)',
                  'kinds < 10: bytes handed to the carrier after every call; kinds 40/50: the Sink state after every call and, once nothing is '
-                 'queued, all bytes with the peer after the connection side ran'],
+                 'queued, all bytes with the peer after the connection side ran; kinds 10-22 / 60-62: feed ... close without flush — the messages '
+                 'covered by a completed flush / send_framed must arrive, of the others a prefix that the backpressure flushes allow '
+                 '(e2e_choice_ok)'],
                 ['... so the peer receives it without any further action by the sender',
                  'C04_yamux_end_to_end (last clause: needs no writer step), C04_roundtrip, C04_close_after_flush_complete, '
                  'C04_close_all_after_flush_complete, C04_pending_has_waker_write, C04_pending_has_waker_read',
